@@ -78,6 +78,9 @@ func runMulti(o *Options, res *Result, rng *RNG, forms []EscForm, gen func(*RNG,
 		}
 	}
 	mout, mok, err := RunDriver(o.Driver, reqs)
+	if err == nil {
+		err = CrossCheck(o, res, "multi", reqs, mout, mok)
+	}
 	if err != nil {
 		return err
 	}
